@@ -4,3 +4,7 @@ import panelmat
 
 def run(tier, seed, build):
     return panelmat.run_prop("C19", ["kA", "cA", "kAmach"], tier, seed, build, what="the piston-theory bilinear form")
+
+
+def replay(path, build):
+    return panelmat.replay_file("C19", path, build)
